@@ -1,6 +1,6 @@
 (* Persist/PersisterProofs.v — proofs about the persisters (Persister.v): both refine the abstract
    (pid, tag) -> snapshot map; corollaries of the property. *)
-From Coq Require Import List ZArith String Bool Lia Permutation.
+From Coq Require Import List ZArith String Bool Lia Permutation Ascii.
 From Plumpy Require Import Val Persister.
 Import ListNotations.
 
@@ -13,37 +13,877 @@ Definition out_equiv (a b : pout) : Prop :=
   | _, _ => False
   end.
 
-(* TO BE PROVED.  Hypotheses may be weakened; report everything you had to add.
+(* ------------------------------------------------------------------------------------------ *)
+(* generic association lists over a key type with a reflecting boolean equality               *)
+(* ------------------------------------------------------------------------------------------ *)
+Section Generic.
+  Context {K A : Type} (eqb : K -> K -> bool).
+  Hypothesis eqb_eq : forall a b, eqb a b = true <-> a = b.
 
-(0) the file name is injective on separator-free keys:
+  Fixpoint gget (k : K) (l : list (K * A)) : option A :=
+    match l with
+    | [] => None
+    | (k', v) :: r => if eqb k k' then Some v else gget k r
+    end.
+
+  Fixpoint gset (k : K) (v : A) (l : list (K * A)) : list (K * A) :=
+    match l with
+    | [] => [(k, v)]
+    | (k', v') :: r => if eqb k k' then (k, v) :: r else (k', v') :: gset k v r
+    end.
+
+  Fixpoint gdel (k : K) (l : list (K * A)) : list (K * A) :=
+    match l with
+    | [] => []
+    | (k', v') :: r => if eqb k k' then r else (k', v') :: gdel k r
+    end.
+
+  Definition gfilt (P : K -> bool) (l : list (K * A)) : list (K * A) :=
+    filter (fun e => P (fst e)) l.
+
+  Lemma g_eqb_refl : forall a, eqb a a = true.
+  Proof. intros a. apply eqb_eq. reflexivity. Qed.
+
+  Lemma g_eqb_neq : forall a b, eqb a b = false <-> a <> b.
+  Proof.
+    intros a b. split.
+    - intros H E. apply eqb_eq in E. congruence.
+    - intros H. destruct (eqb a b) eqn:E; [|reflexivity]. apply eqb_eq in E. contradiction.
+  Qed.
+
+  Lemma gget_notin : forall k l, ~ In k (map fst l) -> gget k l = None.
+  Proof.
+    intros k l. induction l as [|[k0 v0] r IH]; intros H; simpl in *.
+    - reflexivity.
+    - destruct (eqb k k0) eqn:E.
+      + apply eqb_eq in E. subst k0. exfalso. apply H. left. reflexivity.
+      + apply IH. intros Hin. apply H. right. exact Hin.
+  Qed.
+
+  Lemma gget_In : forall k v l, gget k l = Some v -> In (k, v) l.
+  Proof.
+    intros k v l. induction l as [|[k0 v0] r IH]; intros H; simpl in *.
+    - discriminate.
+    - destruct (eqb k k0) eqn:E.
+      + apply eqb_eq in E. subst k0. inversion H; subst. left. reflexivity.
+      + right. apply IH. exact H.
+  Qed.
+
+  Lemma In_gget : forall k v l, NoDup (map fst l) -> In (k, v) l -> gget k l = Some v.
+  Proof.
+    intros k v l. induction l as [|[k0 v0] r IH]; intros Hnd Hin; simpl in *.
+    - contradiction.
+    - inversion Hnd as [|x xs Hnotin Hnd']; subst.
+      destruct Hin as [Heq | Hin].
+      + inversion Heq; subst. rewrite g_eqb_refl. reflexivity.
+      + destruct (eqb k k0) eqn:E.
+        * apply eqb_eq in E. subst k0. exfalso. apply Hnotin.
+          apply in_map_iff. exists (k, v). split; [reflexivity | exact Hin].
+        * apply IH; assumption.
+  Qed.
+
+  Lemma gget_keys : forall k l, In k (map fst l) <-> gget k l <> None.
+  Proof.
+    intros k l. induction l as [|[k0 v0] r IH]; simpl.
+    - split; [intros [] | intros H; congruence].
+    - destruct (eqb k k0) eqn:E.
+      + apply eqb_eq in E. subst k0. split; [intros _; discriminate | intros _; left; reflexivity].
+      + rewrite <- IH. split.
+        * intros [H | H]; [|exact H]. subst k0. rewrite g_eqb_refl in E. discriminate.
+        * intros H. right. exact H.
+  Qed.
+
+  Lemma gget_gset : forall k k' v l,
+    gget k (gset k' v l) = if eqb k k' then Some v else gget k l.
+  Proof.
+    intros k k' v l. induction l as [|[k0 v0] r IH]; simpl.
+    - reflexivity.
+    - destruct (eqb k' k0) eqn:E; simpl.
+      + apply eqb_eq in E. subst k0. destruct (eqb k k'); reflexivity.
+      + destruct (eqb k k0) eqn:E3.
+        * apply eqb_eq in E3. subst k0.
+          destruct (eqb k k') eqn:E2; [|reflexivity].
+          apply eqb_eq in E2. subst k'. rewrite g_eqb_refl in E. discriminate.
+        * exact IH.
+  Qed.
+
+  Lemma gget_gdel : forall k k' l, NoDup (map fst l) ->
+    gget k (gdel k' l) = if eqb k k' then None else gget k l.
+  Proof.
+    intros k k' l. induction l as [|[k0 v0] r IH]; intros Hnd; simpl in *.
+    - destruct (eqb k k'); reflexivity.
+    - inversion Hnd as [|x xs Hnotin Hnd']; subst.
+      destruct (eqb k' k0) eqn:E.
+      + apply eqb_eq in E. subst k0.
+        destruct (eqb k k') eqn:E2; [|reflexivity].
+        apply eqb_eq in E2. subst k'. apply gget_notin. exact Hnotin.
+      + simpl. destruct (eqb k k0) eqn:E3.
+        * apply eqb_eq in E3. subst k0.
+          destruct (eqb k k') eqn:E2; [|reflexivity].
+          apply eqb_eq in E2. subst k'. rewrite g_eqb_refl in E. discriminate.
+        * apply IH. exact Hnd'.
+  Qed.
+
+  Lemma gget_gfilt : forall P k l,
+    gget k (gfilt P l) = if P k then gget k l else None.
+  Proof.
+    intros P k l. unfold gfilt. induction l as [|[k0 v0] r IH]; simpl.
+    - destruct (P k); reflexivity.
+    - destruct (P k0) eqn:EP; simpl.
+      + destruct (eqb k k0) eqn:E.
+        * apply eqb_eq in E. subst k0. rewrite EP. reflexivity.
+        * exact IH.
+      + rewrite IH. destruct (eqb k k0) eqn:E; [|reflexivity].
+        apply eqb_eq in E. subst k0. rewrite EP. reflexivity.
+  Qed.
+
+  Lemma In_gset : forall e k v l, In e (gset k v l) -> e = (k, v) \/ In e l.
+  Proof.
+    intros e k v l. induction l as [|[k0 v0] r IH]; simpl; intros H.
+    - destruct H as [H | []]. left. symmetry. exact H.
+    - destruct (eqb k k0).
+      + destruct H as [H | H]; [left; symmetry; exact H | right; right; exact H].
+      + destruct H as [H | H]; [right; left; exact H |].
+        destruct (IH H) as [H' | H']; [left; exact H' | right; right; exact H'].
+  Qed.
+
+  Lemma In_gdel : forall e k l, In e (gdel k l) -> In e l.
+  Proof.
+    intros e k l. induction l as [|[k0 v0] r IH]; simpl; intros H.
+    - exact H.
+    - destruct (eqb k k0).
+      + right. exact H.
+      + destruct H as [H | H]; [left; exact H | right; apply IH; exact H].
+  Qed.
+
+  Lemma NoDup_gset : forall k v l, NoDup (map fst l) -> NoDup (map fst (gset k v l)).
+  Proof.
+    intros k v l. induction l as [|[k0 v0] r IH]; intros Hnd; simpl in *.
+    - constructor; [intros [] | constructor].
+    - inversion Hnd as [|x xs Hnotin Hnd']; subst.
+      destruct (eqb k k0) eqn:E; simpl.
+      + apply eqb_eq in E. subst k0. constructor; assumption.
+      + constructor; [| apply IH; exact Hnd'].
+        intros Hin. apply in_map_iff in Hin. destruct Hin as [[k1 v1] [Hk Hin]]. simpl in Hk. subst k1.
+        apply In_gset in Hin. destruct Hin as [Heq | Hin].
+        * inversion Heq; subst. rewrite g_eqb_refl in E. discriminate.
+        * apply Hnotin. apply in_map_iff. exists (k0, v1). split; [reflexivity | exact Hin].
+  Qed.
+
+  Lemma NoDup_gdel : forall k l, NoDup (map fst l) -> NoDup (map fst (gdel k l)).
+  Proof.
+    intros k l. induction l as [|[k0 v0] r IH]; intros Hnd; simpl in *.
+    - constructor.
+    - inversion Hnd as [|x xs Hnotin Hnd']; subst.
+      destruct (eqb k k0); simpl.
+      + exact Hnd'.
+      + constructor; [| apply IH; exact Hnd'].
+        intros Hin. apply in_map_iff in Hin. destruct Hin as [[k1 v1] [Hk Hin]]. simpl in Hk. subst k1.
+        apply In_gdel in Hin. apply Hnotin. apply in_map_iff. exists (k0, v1). split; [reflexivity | exact Hin].
+  Qed.
+End Generic.
+
+Lemma NoDup_map_filter : forall {X Y} (g : X -> Y) (f : X -> bool) l,
+  NoDup (map g l) -> NoDup (map g (filter f l)).
+Proof.
+  intros X Y g f l. induction l as [|x r IH]; intros Hnd; simpl in *.
+  - constructor.
+  - inversion Hnd as [|y ys Hnotin Hnd']; subst.
+    destruct (f x); simpl.
+    + constructor; [| apply IH; exact Hnd'].
+      intros Hin. apply Hnotin. apply in_map_iff in Hin. destruct Hin as [x' [Hx Hin]].
+      apply filter_In in Hin. destruct Hin as [Hin _]. apply in_map_iff. exists x'. split; assumption.
+    + apply IH. exact Hnd'.
+Qed.
+
+Lemma NoDup_app_intro : forall {X} (l1 l2 : list X),
+  NoDup l1 -> NoDup l2 -> (forall x, In x l1 -> In x l2 -> False) -> NoDup (l1 ++ l2).
+Proof.
+  intros X l1 l2. induction l1 as [|x r IH]; intros H1 H2 Hd; simpl.
+  - exact H2.
+  - inversion H1 as [|y ys Hnotin H1']; subst. constructor.
+    + intros Hin. apply in_app_or in Hin. destruct Hin as [Hin | Hin].
+      * contradiction.
+      * apply (Hd x); [left; reflexivity | exact Hin].
+    + apply IH; [exact H1' | exact H2 |].
+      intros z Hz1 Hz2. apply (Hd z); [right; exact Hz1 | exact Hz2].
+Qed.
+
+Lemma filter_idem : forall {X} (f : X -> bool) l, filter f (filter f l) = filter f l.
+Proof.
+  intros X f l. induction l as [|x r IH]; simpl.
+  - reflexivity.
+  - destruct (f x) eqn:E; simpl.
+    + rewrite E, IH. reflexivity.
+    + exact IH.
+Qed.
+
+(* ------------------------------------------------------------------------------------------ *)
+(* decidable equalities                                                                        *)
+(* ------------------------------------------------------------------------------------------ *)
+Lemma tag_eqb_eq : forall a b : tag, tag_eqb a b = true <-> a = b.
+Proof.
+  intros [a|] [b|]; unfold tag_eqb; simpl.
+  - rewrite String.eqb_eq. split; intros H; [subst; reflexivity | inversion H; reflexivity].
+  - split; discriminate.
+  - split; discriminate.
+  - split; reflexivity.
+Qed.
+
+Lemma key_eqb_eq : forall a b : key, key_eqb a b = true <-> a = b.
+Proof.
+  intros [p1 t1] [p2 t2]. unfold key_eqb. simpl.
+  rewrite andb_true_iff, String.eqb_eq, tag_eqb_eq. split.
+  - intros [H1 H2]. subst. reflexivity.
+  - intros H. inversion H. split; reflexivity.
+Qed.
+
+Lemma key_eqb_refl : forall k, key_eqb k k = true.
+Proof. intros k. apply key_eqb_eq. reflexivity. Qed.
+
+(* ------------------------------------------------------------------------------------------ *)
+(* the model's three kinds of association list are instances of the generic one               *)
+(* ------------------------------------------------------------------------------------------ *)
+Lemma alist_get_g : forall {A} k (l : list (string * A)), alist_get k l = gget String.eqb k l.
+Proof. intros A k l. induction l as [|[k0 v0] r IH]; simpl; [reflexivity | rewrite IH; reflexivity]. Qed.
+Lemma alist_set_g : forall {A} k v (l : list (string * A)), alist_set k v l = gset String.eqb k v l.
+Proof. intros A k v l. induction l as [|[k0 v0] r IH]; simpl; [reflexivity | rewrite IH; reflexivity]. Qed.
+Lemma alist_del_g : forall {A} k (l : list (string * A)), alist_del k l = gdel String.eqb k l.
+Proof. intros A k l. induction l as [|[k0 v0] r IH]; simpl; [reflexivity | rewrite IH; reflexivity]. Qed.
+
+Lemma tm_get_g : forall t (l : tagmap), tm_get t l = gget tag_eqb t l.
+Proof. intros k l. induction l as [|[k0 v0] r IH]; simpl; [reflexivity | rewrite IH; reflexivity]. Qed.
+Lemma tm_set_g : forall t s (l : tagmap), tm_set t s l = gset tag_eqb t s l.
+Proof. intros k v l. induction l as [|[k0 v0] r IH]; simpl; [reflexivity | rewrite IH; reflexivity]. Qed.
+Lemma tm_del_g : forall t (l : tagmap), tm_del t l = gdel tag_eqb t l.
+Proof. intros k l. induction l as [|[k0 v0] r IH]; simpl; [reflexivity | rewrite IH; reflexivity]. Qed.
+
+Lemma am_get_g : forall k (l : amap), am_get k l = gget key_eqb k l.
+Proof. intros k l. induction l as [|[k0 v0] r IH]; simpl; [reflexivity | rewrite IH; reflexivity]. Qed.
+Lemma am_set_g : forall k s (l : amap), am_set k s l = gset key_eqb k s l.
+Proof. intros k v l. induction l as [|[k0 v0] r IH]; simpl; [reflexivity | rewrite IH; reflexivity]. Qed.
+
+(* --- string-keyed --- *)
+Lemma alist_get_set : forall {A} k k' (v : A) l,
+  alist_get k (alist_set k' v l) = if String.eqb k k' then Some v else alist_get k l.
+Proof. intros. rewrite alist_set_g, !alist_get_g. apply gget_gset. exact String.eqb_eq. Qed.
+Lemma alist_get_del : forall {A} k k' (l : list (string * A)), NoDup (map fst l) ->
+  alist_get k (alist_del k' l) = if String.eqb k k' then None else alist_get k l.
+Proof. intros A k k' l H. rewrite alist_del_g, !alist_get_g. apply gget_gdel; [exact String.eqb_eq | exact H]. Qed.
+Lemma alist_get_In : forall {A} k (v : A) l, alist_get k l = Some v -> In (k, v) l.
+Proof. intros A k v l. rewrite alist_get_g. apply gget_In. exact String.eqb_eq. Qed.
+Lemma In_alist_get : forall {A} k (v : A) l, NoDup (map fst l) -> In (k, v) l -> alist_get k l = Some v.
+Proof. intros A k v l. rewrite alist_get_g. apply In_gget. exact String.eqb_eq. Qed.
+Lemma In_alist_set : forall {A} e k (v : A) l, In e (alist_set k v l) -> e = (k, v) \/ In e l.
+Proof. intros A e k v l. rewrite alist_set_g. apply In_gset. Qed.
+Lemma In_alist_del : forall {A} e k (l : list (string * A)), In e (alist_del k l) -> In e l.
+Proof. intros A e k l. rewrite alist_del_g. apply In_gdel. Qed.
+Lemma NoDup_alist_set : forall {A} k (v : A) l, NoDup (map fst l) -> NoDup (map fst (alist_set k v l)).
+Proof. intros A k v l. rewrite alist_set_g. apply NoDup_gset. exact String.eqb_eq. Qed.
+Lemma NoDup_alist_del : forall {A} k (l : list (string * A)), NoDup (map fst l) -> NoDup (map fst (alist_del k l)).
+Proof. intros A k l. rewrite alist_del_g. apply NoDup_gdel. Qed.
+
+(* --- tag-keyed --- *)
+Lemma tm_get_set : forall t t' s l, tm_get t (tm_set t' s l) = if tag_eqb t t' then Some s else tm_get t l.
+Proof. intros. rewrite tm_set_g, !tm_get_g. apply gget_gset. exact tag_eqb_eq. Qed.
+Lemma tm_get_del : forall t t' l, NoDup (map fst l) ->
+  tm_get t (tm_del t' l) = if tag_eqb t t' then None else tm_get t l.
+Proof. intros t t' l H. rewrite tm_del_g, !tm_get_g. apply gget_gdel; [exact tag_eqb_eq | exact H]. Qed.
+Lemma tm_get_keys : forall t l, In t (map fst l) <-> tm_get t l <> None.
+Proof. intros t l. rewrite tm_get_g. apply gget_keys. exact tag_eqb_eq. Qed.
+Lemma NoDup_tm_set : forall t s l, NoDup (map fst l) -> NoDup (map fst (tm_set t s l)).
+Proof. intros t s l. rewrite tm_set_g. apply NoDup_gset. exact tag_eqb_eq. Qed.
+Lemma NoDup_tm_del : forall t l, NoDup (map fst l) -> NoDup (map fst (tm_del t l)).
+Proof. intros t l. rewrite tm_del_g. apply NoDup_gdel. Qed.
+
+(* --- (pid, tag)-keyed: the abstract map --- *)
+Lemma am_get_set : forall k k' s l, am_get k (am_set k' s l) = if key_eqb k k' then Some s else am_get k l.
+Proof. intros. rewrite am_set_g, !am_get_g. apply gget_gset. exact key_eqb_eq. Qed.
+Lemma am_get_keys : forall k l, In k (map fst l) <-> am_get k l <> None.
+Proof. intros k l. rewrite am_get_g. apply gget_keys. exact key_eqb_eq. Qed.
+Lemma NoDup_am_set : forall k s l, NoDup (map fst l) -> NoDup (map fst (am_set k s l)).
+Proof. intros k s l. rewrite am_set_g. apply NoDup_gset. exact key_eqb_eq. Qed.
+
+Lemma am_get_del : forall k k' l, am_get k (am_del k' l) = if key_eqb k k' then None else am_get k l.
+Proof.
+  intros k k' l. unfold am_del. rewrite !am_get_g.
+  change (filter (fun e => negb (key_eqb k' (fst e))) l) with (gfilt (fun x => negb (key_eqb k' x)) l).
+  rewrite (gget_gfilt key_eqb key_eqb_eq).
+  destruct (key_eqb k k') eqn:E.
+  - apply key_eqb_eq in E. subst k'. rewrite key_eqb_refl. reflexivity.
+  - destruct (key_eqb k' k) eqn:E'; [|reflexivity].
+    apply key_eqb_eq in E'. subst k'. rewrite key_eqb_refl in E. discriminate.
+Qed.
+
+Lemma am_get_del_pid : forall k p l,
+  am_get k (am_del_pid p l) = if String.eqb p (fst k) then None else am_get k l.
+Proof.
+  intros k p l. unfold am_del_pid. rewrite !am_get_g.
+  change (filter (fun e => negb (String.eqb p (fst (fst e)))) l)
+    with (gfilt (fun x : key => negb (String.eqb p (fst x))) l).
+  rewrite (gget_gfilt key_eqb key_eqb_eq).
+  destruct (String.eqb p (fst k)); reflexivity.
+Qed.
+
+Lemma NoDup_am_del : forall k l, NoDup (map fst l) -> NoDup (map fst (am_del k l)).
+Proof. intros k l. unfold am_del. apply NoDup_map_filter. Qed.
+Lemma NoDup_am_del_pid : forall p l, NoDup (map fst l) -> NoDup (map fst (am_del_pid p l)).
+Proof. intros p l. unfold am_del_pid. apply NoDup_map_filter. Qed.
+
+(* ------------------------------------------------------------------------------------------ *)
+(* (3) the abstract map is a snapshot store                                                    *)
+(* ------------------------------------------------------------------------------------------ *)
+Lemma spec_step_NoDup : forall m op, NoDup (map fst m) -> NoDup (map fst (fst (spec_step m op))).
+Proof.
+  intros m op H. destruct op as [p t s|p t| |p|p t|p]; simpl.
+  - apply NoDup_am_set. exact H.
+  - exact H.
+  - exact H.
+  - exact H.
+  - apply NoDup_am_del. exact H.
+  - apply NoDup_am_del_pid. exact H.
+Qed.
+
+Lemma spec_final_NoDup : forall h m, NoDup (map fst m) -> NoDup (map fst (final_state spec_step m h)).
+Proof.
+  intros h. induction h as [|op rest IH]; intros m H; simpl.
+  - exact H.
+  - apply IH. apply spec_step_NoDup. exact H.
+Qed.
+
+Theorem spec_keys_unique : forall h, NoDup (map fst (final_state spec_step [] h)).
+Proof. intros h. apply spec_final_NoDup. constructor. Qed.
+
+Theorem spec_load_latest : forall m p t s,
+  snd (spec_step (fst (spec_step m (Save p t s))) (Load p t)) = OSnap s.
+Proof. intros m p t s. simpl. rewrite am_get_set, key_eqb_refl. reflexivity. Qed.
+
+Theorem spec_save_other : forall m p t s p' t', (p', t') <> (p, t) ->
+  am_get (p', t') (fst (spec_step m (Save p t s))) = am_get (p', t') m.
+Proof.
+  intros m p t s p' t' Hne. simpl. rewrite am_get_set.
+  destruct (key_eqb (p', t') (p, t)) eqn:E; [|reflexivity].
+  apply key_eqb_eq in E. contradiction.
+Qed.
+
+Theorem spec_delete_idempotent : forall m p t,
+  fst (spec_step (fst (spec_step m (Delete p t))) (Delete p t)) = fst (spec_step m (Delete p t)).
+Proof. intros m p t. simpl. unfold am_del. apply filter_idem. Qed.
+
+Theorem spec_delete_local : forall m p t k, k <> (p, t) ->
+  am_get k (fst (spec_step m (Delete p t))) = am_get k m.
+Proof.
+  intros m p t k Hne. simpl. rewrite am_get_del.
+  destruct (key_eqb k (p, t)) eqn:E; [|reflexivity].
+  apply key_eqb_eq in E. contradiction.
+Qed.
+
+Theorem spec_delete_removes : forall m p t, am_get (p, t) (fst (spec_step m (Delete p t))) = None.
+Proof. intros m p t. simpl. rewrite am_get_del, key_eqb_refl. reflexivity. Qed.
+
+Theorem spec_delete_pid_exact : forall m p k,
+  am_get k (fst (spec_step m (DeletePid p))) = if String.eqb p (fst k) then None else am_get k m.
+Proof. intros m p k. simpl. apply am_get_del_pid. Qed.
+
+(* (the NoDup hypothesis is not needed; kept as stated) *)
+Theorem spec_list_exact : forall m k, NoDup (map fst m) ->
+  (In k (map fst m) <-> am_get k m <> None).
+Proof. intros m k _. apply am_get_keys. Qed.
+
+Print Assumptions spec_keys_unique.
+Print Assumptions spec_load_latest.
+Print Assumptions spec_save_other.
+Print Assumptions spec_delete_idempotent.
+Print Assumptions spec_delete_local.
+Print Assumptions spec_delete_removes.
+Print Assumptions spec_delete_pid_exact.
+Print Assumptions spec_list_exact.
+
+(* ------------------------------------------------------------------------------------------ *)
+(* (0) the file name is injective on separator-free keys                                       *)
+(* ------------------------------------------------------------------------------------------ *)
+Section Strings.
+Local Open Scope string_scope.
+
+Fixpoint before_dot (s : string) : string :=
+  match s with
+  | EmptyString => EmptyString
+  | String c r => if Ascii.eqb c "."%char then EmptyString else String c (before_dot r)
+  end.
+
+Fixpoint after_dot (s : string) : string :=
+  match s with
+  | EmptyString => EmptyString
+  | String c r => if Ascii.eqb c "."%char then r else after_dot r
+  end.
+
+Lemma before_dot_app : forall p r, sep_free p = true -> before_dot (p ++ String "."%char r) = p.
+Proof.
+  induction p as [|c p IH]; intros r H.
+  - reflexivity.
+  - simpl in H. apply andb_true_iff in H. destruct H as [Hc Hp].
+    simpl. destruct (Ascii.eqb c "."%char); simpl in Hc; [discriminate|].
+    rewrite IH by exact Hp. reflexivity.
+Qed.
+
+Lemma after_dot_app : forall p r, sep_free p = true -> after_dot (p ++ String "."%char r) = r.
+Proof.
+  induction p as [|c p IH]; intros r H.
+  - reflexivity.
+  - simpl in H. apply andb_true_iff in H. destruct H as [Hc Hp].
+    simpl. destruct (Ascii.eqb c "."%char); simpl in Hc; [discriminate|].
+    apply IH. exact Hp.
+Qed.
+
 Theorem pickle_filename_injective : forall p1 t1 p2 t2,
   key_ok p1 t1 = true -> key_ok p2 t2 = true ->
   pickle_filename p1 t1 = pickle_filename p2 t2 -> p1 = p2 /\ t1 = t2.
+Proof.
+  intros p1 t1 p2 t2 H1 H2 E. unfold key_ok in H1, H2.
+  apply andb_true_iff in H1. apply andb_true_iff in H2.
+  destruct H1 as [Hp1 Ht1]. destruct H2 as [Hp2 Ht2].
+  assert (Hp : p1 = p2).
+  { apply (f_equal before_dot) in E.
+    destruct t1 as [t1|], t2 as [t2|]; simpl in E;
+      rewrite (before_dot_app p1) in E by exact Hp1;
+      rewrite (before_dot_app p2) in E by exact Hp2; exact E. }
+  subst p2. split; [reflexivity|].
+  apply (f_equal after_dot) in E.
+  destruct t1 as [t1|], t2 as [t2|]; simpl in E;
+    rewrite !(after_dot_app p1) in E by exact Hp1.
+  - apply (f_equal before_dot) in E.
+    rewrite (before_dot_app t1) in E by exact Ht1.
+    rewrite (before_dot_app t2) in E by exact Ht2. subst. reflexivity.
+  - exfalso. pose proof (f_equal before_dot E) as E'.
+    rewrite (before_dot_app t1) in E' by exact Ht1. simpl in E'. subst t1. discriminate E.
+  - exfalso. pose proof (f_equal before_dot E) as E'.
+    rewrite (before_dot_app t2) in E' by exact Ht2. simpl in E'. subst t2. discriminate E.
+  - reflexivity.
+Qed.
+End Strings.
 
-(1) refinement: over any history of well-keyed operations each persister produces, operation by operation,
-    the outputs of the abstract map.
-Theorem mem_refines_spec : forall h, forallb op_ok h = true ->
+Print Assumptions pickle_filename_injective.
+
+Definition fn (k : key) : string := pickle_filename (fst k) (snd k).
+Definition kok (k : key) : bool := key_ok (fst k) (snd k).
+
+Lemma fn_inj : forall k1 k2, kok k1 = true -> kok k2 = true -> fn k1 = fn k2 -> k1 = k2.
+Proof.
+  intros [p1 t1] [p2 t2] H1 H2 E. unfold kok, fn in *. simpl in *.
+  destruct (pickle_filename_injective p1 t1 p2 t2 H1 H2 E) as [Hp Ht]. subst. reflexivity.
+Qed.
+
+(* ------------------------------------------------------------------------------------------ *)
+(* out_equiv is a partial equivalence                                                          *)
+(* ------------------------------------------------------------------------------------------ *)
+Lemma out_equiv_sym : forall a b, out_equiv a b -> out_equiv b a.
+Proof.
+  intros [|x|  |x] [|y| |y] H; simpl in *; try contradiction; try exact I.
+  - symmetry. exact H.
+  - destruct H as [H1 [H2 H3]]. split; [exact H2 | split; [exact H1 |]].
+    intros k. symmetry. apply H3.
+Qed.
+
+Lemma out_equiv_trans : forall a b c, out_equiv a b -> out_equiv b c -> out_equiv a c.
+Proof.
+  intros [|x| |x] [|y| |y] [|z| |z] H1 H2; simpl in *; try contradiction; try exact I.
+  - congruence.
+  - destruct H1 as [A1 [A2 A3]]. destruct H2 as [B1 [B2 B3]].
+    split; [exact A1 | split; [exact B2 |]].
+    intros k. rewrite A3. apply B3.
+Qed.
+
+Lemma Forall2_sym_gen : forall {X} (R : X -> X -> Prop), (forall a b, R a b -> R b a) ->
+  forall l1 l2, Forall2 R l1 l2 -> Forall2 R l2 l1.
+Proof.
+  intros X R Hs l1 l2 H. induction H as [|a b l1 l2 Hab H IH]; constructor; [apply Hs; exact Hab | exact IH].
+Qed.
+
+Lemma Forall2_trans_gen : forall {X} (R : X -> X -> Prop), (forall a b c, R a b -> R b c -> R a c) ->
+  forall l1 l2 l3, Forall2 R l1 l2 -> Forall2 R l2 l3 -> Forall2 R l1 l3.
+Proof.
+  intros X R Ht l1 l2 l3 H. revert l3. induction H as [|a b l1 l2 Hab H IH]; intros l3 H23.
+  - inversion H23; subst. constructor.
+  - inversion H23 as [|b' c l2' l3' Hbc H23']; subst. constructor.
+    + eapply Ht; eassumption.
+    + apply IH. exact H23'.
+Qed.
+
+Lemma out_equiv_filter : forall (f : key -> bool) x y,
+  out_equiv (OKeys x) (OKeys y) -> out_equiv (OKeys (filter f x)) (OKeys (filter f y)).
+Proof.
+  intros f x y [H1 [H2 H3]]. simpl. split; [apply NoDup_filter; exact H1 | split; [apply NoDup_filter; exact H2 |]].
+  intros k. rewrite !filter_In, H3. reflexivity.
+Qed.
+
+(* ------------------------------------------------------------------------------------------ *)
+(* (1a) the in-memory persister refines the abstract map                                       *)
+(* ------------------------------------------------------------------------------------------ *)
+Definition mget (p : pid) (t : tag) (m : mem) : option snap :=
+  match alist_get p m with Some tm => tm_get t tm | None => None end.
+
+Definition R_mem (m : mem) (a : amap) : Prop :=
+  NoDup (map fst m) /\
+  (forall p tm, In (p, tm) m -> NoDup (map fst tm)) /\
+  NoDup (map fst a) /\
+  (forall p t, mget p t m = am_get (p, t) a).
+
+Definition mlist (m : mem) : list key :=
+  flat_map (fun e => map (fun ts => (fst e, fst ts)) (snd e)) m.
+
+Lemma NoDup_map_pair : forall (p : pid) (tm : tagmap),
+  NoDup (map fst tm) -> NoDup (map (fun ts => (p, fst ts)) tm).
+Proof.
+  intros p tm. induction tm as [|[t s] r IH]; intros Hnd; simpl in *.
+  - constructor.
+  - inversion Hnd as [|x xs Hnotin Hnd']; subst. constructor; [| apply IH; exact Hnd'].
+    intros Hin. apply in_map_iff in Hin. destruct Hin as [[t1 s1] [Heq Hin]]. simpl in Heq.
+    inversion Heq; subst. apply Hnotin. apply in_map_iff. exists (t, s1). split; [reflexivity | exact Hin].
+Qed.
+
+Lemma mlist_In : forall m, NoDup (map fst m) ->
+  forall p t, In (p, t) (mlist m) <-> mget p t m <> None.
+Proof.
+  intros m Hnd p t. unfold mlist. rewrite in_flat_map. split.
+  - intros [[p0 tm] [Hin Hin2]]. simpl in Hin2. apply in_map_iff in Hin2.
+    destruct Hin2 as [[t0 s0] [Heq Hin3]]. simpl in Heq. inversion Heq; subst.
+    unfold mget. rewrite (In_alist_get _ _ _ Hnd Hin). apply tm_get_keys.
+    apply in_map_iff. exists (t, s0). split; [reflexivity | exact Hin3].
+  - unfold mget. destruct (alist_get p m) as [tm|] eqn:E; [|congruence].
+    intros H. apply alist_get_In in E. exists (p, tm). split; [exact E|]. simpl.
+    apply tm_get_keys in H. apply in_map_iff in H. destruct H as [[t1 s1] [Heq Hin]]. simpl in Heq. subst t1.
+    apply in_map_iff. exists (t, s1). split; [reflexivity | exact Hin].
+Qed.
+
+Lemma mlist_NoDup : forall m, NoDup (map fst m) ->
+  (forall p tm, In (p, tm) m -> NoDup (map fst tm)) -> NoDup (mlist m).
+Proof.
+  intros m. induction m as [|[p tm] r IH]; intros Hnd Hin; simpl in *.
+  - constructor.
+  - inversion Hnd as [|x xs Hnotin Hnd']; subst.
+    apply NoDup_app_intro.
+    + apply NoDup_map_pair. apply (Hin p tm). left. reflexivity.
+    + apply IH; [exact Hnd' |]. intros p' tm' H. apply (Hin p' tm'). right. exact H.
+    + intros [p' t'] H1 H2. apply in_map_iff in H1. destruct H1 as [[t1 s1] [Heq _]]. simpl in Heq.
+      inversion Heq; subst. fold (mlist r) in H2. unfold mlist in H2. apply in_flat_map in H2.
+      destruct H2 as [[p0 tm0] [Hin0 Hin1]]. simpl in Hin1. apply in_map_iff in Hin1.
+      destruct Hin1 as [[t2 s2] [Heq2 _]]. simpl in Heq2. inversion Heq2; subst.
+      apply Hnotin. apply in_map_iff. exists (p', tm0). split; [reflexivity | exact Hin0].
+Qed.
+
+Lemma mem_step_sim : forall m a op, R_mem m a ->
+  R_mem (fst (mem_step m op)) (fst (spec_step a op)) /\
+  out_equiv (snd (mem_step m op)) (snd (spec_step a op)).
+Proof.
+  intros m a op [Hnd [Hinner [Hnda Hag]]].
+  destruct op as [p t s|p t| |p|p t|p].
+  - (* Save *)
+    simpl. split; [|exact I].
+    assert (Htm : NoDup (map fst (match alist_get p m with Some tm => tm | None => [] end))).
+    { destruct (alist_get p m) as [tm|] eqn:E.
+      - apply alist_get_In in E. apply (Hinner p tm E).
+      - constructor. }
+    split; [apply NoDup_alist_set; exact Hnd|].
+    split.
+    { intros p' tm' Hin. apply In_alist_set in Hin. destruct Hin as [Heq | Hin].
+      - inversion Heq; subst. apply NoDup_tm_set. exact Htm.
+      - apply (Hinner p' tm' Hin). }
+    split; [apply NoDup_am_set; exact Hnda|].
+    intros p' t'. unfold mget. rewrite alist_get_set, am_get_set. unfold key_eqb. simpl.
+    destruct (String.eqb p' p) eqn:Ep; simpl.
+    + apply String.eqb_eq in Ep. subst p'. rewrite tm_get_set.
+      destruct (tag_eqb t' t); [reflexivity|].
+      rewrite <- Hag. unfold mget. destruct (alist_get p m); reflexivity.
+    + apply Hag.
+  - (* Load *)
+    simpl. pose proof (Hag p t) as H. unfold mget in H.
+    destruct (alist_get p m) as [tm|] eqn:E.
+    + destruct (tm_get t tm) as [s|] eqn:E2; simpl; rewrite <- H;
+        (split; [repeat split; assumption | simpl; trivial]).
+    + simpl. rewrite <- H. split; [repeat split; assumption | exact I].
+  - (* ListAll *)
+    simpl. split; [repeat split; assumption |].
+    split; [apply mlist_NoDup; assumption | split; [exact Hnda |]].
+    intros [p t]. fold (mlist m). rewrite (mlist_In m Hnd), am_get_keys, Hag. reflexivity.
+  - (* ListPid *)
+    simpl. split; [repeat split; assumption |].
+    split.
+    { destruct (alist_get p m) as [tm|] eqn:E; [|constructor].
+      apply NoDup_map_pair. apply alist_get_In in E. apply (Hinner p tm E). }
+    split; [apply NoDup_filter; exact Hnda |].
+    intros [p' t']. rewrite filter_In, am_get_keys, <- Hag. unfold mget. simpl.
+    destruct (alist_get p m) as [tm|] eqn:E.
+    + split.
+      * intros Hin. apply in_map_iff in Hin. destruct Hin as [[t0 s0] [Heq Hin]]. simpl in Heq.
+        inversion Heq; subst. rewrite E. split; [| apply String.eqb_refl].
+        apply tm_get_keys. apply in_map_iff. exists (t', s0). split; [reflexivity | exact Hin].
+      * intros [Hne Hp]. apply String.eqb_eq in Hp. subst p'. rewrite E in Hne.
+        apply tm_get_keys in Hne. apply in_map_iff in Hne. destruct Hne as [[t1 s1] [Heq Hin]].
+        simpl in Heq. subst t1. apply in_map_iff. exists (t', s1). split; [reflexivity | exact Hin].
+    + split; [intros [] |]. intros [Hne Hp]. apply String.eqb_eq in Hp. subst p'.
+      rewrite E in Hne. congruence.
+  - (* Delete *)
+    simpl. destruct (alist_get p m) as [tm|] eqn:E; simpl; (split; [|exact I]).
+    + assert (Htm : NoDup (map fst tm)).
+      { apply alist_get_In in E. apply (Hinner p tm E). }
+      split; [apply NoDup_alist_set; exact Hnd|].
+      split.
+      { intros p' tm' Hin. apply In_alist_set in Hin. destruct Hin as [Heq | Hin].
+        - inversion Heq; subst. apply NoDup_tm_del. exact Htm.
+        - apply (Hinner p' tm' Hin). }
+      split; [apply NoDup_am_del; exact Hnda|].
+      intros p' t'. unfold mget. rewrite alist_get_set, am_get_del. unfold key_eqb. simpl.
+      destruct (String.eqb p' p) eqn:Ep; simpl.
+      * apply String.eqb_eq in Ep. subst p'. rewrite (tm_get_del t' t tm Htm).
+        destruct (tag_eqb t' t); [reflexivity|].
+        rewrite <- Hag. unfold mget. rewrite E. reflexivity.
+      * apply Hag.
+    + split; [exact Hnd|]. split; [exact Hinner|].
+      split; [apply NoDup_am_del; exact Hnda|].
+      intros p' t'. rewrite am_get_del.
+      destruct (key_eqb (p', t') (p, t)) eqn:Ek; [| apply Hag].
+      apply key_eqb_eq in Ek. inversion Ek; subst. unfold mget. rewrite E. reflexivity.
+  - (* DeletePid *)
+    simpl. split; [|exact I].
+    split; [apply NoDup_alist_del; exact Hnd|].
+    split.
+    { intros p' tm' Hin. apply In_alist_del in Hin. apply (Hinner p' tm' Hin). }
+    split; [apply NoDup_am_del_pid; exact Hnda|].
+    intros p' t'. unfold mget. rewrite (alist_get_del p' p m Hnd), am_get_del_pid. simpl.
+    rewrite (String.eqb_sym p p').
+    destruct (String.eqb p' p); [reflexivity|]. apply Hag.
+Qed.
+
+Lemma sim_lift : forall {S} (step : S -> pop -> S * pout) (R : S -> amap -> Prop) (ok : pop -> bool),
+  (forall s a op, R s a -> ok op = true ->
+     R (fst (step s op)) (fst (spec_step a op)) /\ out_equiv (snd (step s op)) (snd (spec_step a op))) ->
+  forall h s a, R s a -> forallb ok h = true ->
+    Forall2 out_equiv (run_hist step s h) (run_hist spec_step a h).
+Proof.
+  intros S step R ok Hstep h. induction h as [|op rest IH]; intros s a HR Hok.
+  - simpl. constructor.
+  - simpl in Hok. apply andb_true_iff in Hok. destruct Hok as [Hop Hrest].
+    destruct (Hstep s a op HR Hop) as [HR' Hout].
+    cbn [run_hist].
+    destruct (step s op) as [s' o] eqn:E1. destruct (spec_step a op) as [a' o'] eqn:E2.
+    simpl in HR', Hout. constructor; [exact Hout |]. apply IH; assumption.
+Qed.
+
+Lemma R_mem_init : R_mem [] [].
+Proof.
+  split; [constructor|]. split; [intros p tm []|]. split; [constructor|]. intros p t. reflexivity.
+Qed.
+
+(* op_ok is not needed for the in-memory persister *)
+Theorem mem_refines_spec : forall h,
   Forall2 out_equiv (run_hist mem_step [] h) (run_hist spec_step [] h).
+Proof.
+  intros h.
+  apply (sim_lift mem_step R_mem (fun _ => true)).
+  - intros s a op HR _. apply mem_step_sim. exact HR.
+  - exact R_mem_init.
+  - induction h as [|op rest IH]; [reflexivity | exact IH].
+Qed.
+
+Print Assumptions mem_refines_spec.
+
+(* ------------------------------------------------------------------------------------------ *)
+(* (1b) the pickle-directory persister refines the abstract map                                *)
+(* ------------------------------------------------------------------------------------------ *)
+Definition pget (k : key) (d : pdir) : option snap := option_map snd (alist_get (fn k) d).
+
+Definition plist (d : pdir) : list key := map (fun f => fst (snd f)) d.
+
+(* every file is named after the checkpoint it stores, and that checkpoint is well-keyed *)
+Definition pwf (d : pdir) : Prop :=
+  forall f k s, In (f, (k, s)) d -> f = fn k /\ kok k = true.
+
+Definition R_pickle (d : pdir) (a : amap) : Prop :=
+  NoDup (map fst d) /\
+  pwf d /\
+  NoDup (map fst a) /\
+  (forall k, am_get k a <> None -> kok k = true) /\
+  (forall k, kok k = true -> pget k d = am_get k a).
+
+Lemma plist_In_file : forall d k, In k (plist d) -> exists f s, In (f, (k, s)) d.
+Proof.
+  intros d k H. unfold plist in H. apply in_map_iff in H. destruct H as [[f [k0 s]] [Heq Hin]].
+  simpl in Heq. subst k0. exists f, s. exact Hin.
+Qed.
+
+Lemma file_In_plist : forall d f k s, In (f, (k, s)) d -> In k (plist d).
+Proof.
+  intros d f k s H. unfold plist. apply in_map_iff. exists (f, (k, s)). split; [reflexivity | exact H].
+Qed.
+
+Lemma plist_NoDup : forall d, NoDup (map fst d) -> pwf d -> NoDup (plist d).
+Proof.
+  intros d. induction d as [|[f [k s]] r IH]; intros Hnd Hwf; simpl in *.
+  - constructor.
+  - inversion Hnd as [|x xs Hnotin Hnd']; subst.
+    assert (Hwf' : pwf r).
+    { intros f' k' s' H. apply (Hwf f' k' s'). right. exact H. }
+    constructor; [| apply IH; assumption].
+    intros Hin. apply plist_In_file in Hin. destruct Hin as [f' [s' Hin]].
+    destruct (Hwf f k s (or_introl eq_refl)) as [Hf _].
+    destruct (Hwf' f' k s' Hin) as [Hf' _].
+    apply Hnotin. apply in_map_iff. exists (f', (k, s')). split; [simpl; congruence | exact Hin].
+Qed.
+
+Lemma plist_In : forall d a, R_pickle d a -> forall k, In k (plist d) <-> am_get k a <> None.
+Proof.
+  intros d a [Hnd [Hwf [Hnda [Hkok Hag]]]] k. split.
+  - intros Hin. apply plist_In_file in Hin. destruct Hin as [f [s Hin]].
+    destruct (Hwf f k s Hin) as [Hf Hk]. subst f.
+    rewrite <- (Hag k Hk). unfold pget. rewrite (In_alist_get _ _ _ Hnd Hin). simpl. discriminate.
+  - intros Hne. pose proof (Hkok k Hne) as Hk. rewrite <- (Hag k Hk) in Hne. unfold pget in Hne.
+    destruct (alist_get (fn k) d) as [[k' s]|] eqn:E; [| simpl in Hne; congruence].
+    apply alist_get_In in E. destruct (Hwf _ _ _ E) as [Hf Hk'].
+    assert (k = k') by (apply fn_inj; assumption). subst k'.
+    apply (file_In_plist d (fn k) k s E).
+Qed.
+
+Definition delf (d' : pdir) (k : key) : pdir := alist_del (pickle_filename (fst k) (snd k)) d'.
+
+Lemma fold_del_NoDup : forall ks d, NoDup (map fst d) -> NoDup (map fst (fold_left delf ks d)).
+Proof.
+  intros ks. induction ks as [|k ks IH]; intros d H; simpl.
+  - exact H.
+  - apply IH. unfold delf. apply NoDup_alist_del. exact H.
+Qed.
+
+Lemma fold_del_In : forall ks d e, In e (fold_left delf ks d) -> In e d.
+Proof.
+  intros ks. induction ks as [|k ks IH]; intros d e H; simpl in *.
+  - exact H.
+  - apply IH in H. unfold delf in H. apply In_alist_del in H. exact H.
+Qed.
+
+Lemma fold_del_get : forall ks d f, NoDup (map fst d) ->
+  alist_get f (fold_left delf ks d) =
+  if existsb (fun k => String.eqb f (fn k)) ks then None else alist_get f d.
+Proof.
+  intros ks. induction ks as [|k ks IH]; intros d f H; simpl.
+  - reflexivity.
+  - rewrite IH by (unfold delf; apply NoDup_alist_del; exact H).
+    unfold delf at 1. rewrite (alist_get_del f _ d H). fold (fn k).
+    destruct (String.eqb f (fn k)); simpl; [|reflexivity].
+    destruct (existsb (fun k0 => String.eqb f (fn k0)) ks); reflexivity.
+Qed.
+
+Lemma pickle_step_sim : forall d a op, R_pickle d a -> op_ok op = true ->
+  R_pickle (fst (pickle_step d op)) (fst (spec_step a op)) /\
+  out_equiv (snd (pickle_step d op)) (snd (spec_step a op)).
+Proof.
+  intros d a op HR Hop. pose proof HR as [Hnd [Hwf [Hnda [Hkok Hag]]]].
+  destruct op as [p t s|p t| |p|p t|p].
+  - (* Save *)
+    simpl in Hop. simpl. split; [|exact I].
+    change (pickle_filename p t) with (fn (p, t)).
+    assert (Hk0 : kok (p, t) = true) by exact Hop.
+    split; [apply NoDup_alist_set; exact Hnd|].
+    split.
+    { intros f k s' Hin. apply In_alist_set in Hin. destruct Hin as [Heq | Hin].
+      - inversion Heq; subst. split; [reflexivity | exact Hk0].
+      - apply (Hwf f k s' Hin). }
+    split; [apply NoDup_am_set; exact Hnda|].
+    split.
+    { intros k. rewrite am_get_set. destruct (key_eqb k (p, t)) eqn:E.
+      - apply key_eqb_eq in E. subst k. intros _. exact Hk0.
+      - apply Hkok. }
+    intros k Hk. unfold pget. rewrite alist_get_set, am_get_set.
+    destruct (key_eqb k (p, t)) eqn:E.
+    + apply key_eqb_eq in E. subst k. rewrite String.eqb_refl. reflexivity.
+    + destruct (String.eqb (fn k) (fn (p, t))) eqn:E2.
+      * apply String.eqb_eq in E2. apply fn_inj in E2; [| exact Hk | exact Hk0].
+        subst k. rewrite key_eqb_refl in E. discriminate.
+      * apply (Hag k Hk).
+  - (* Load *)
+    simpl in Hop. simpl. change (pickle_filename p t) with (fn (p, t)).
+    pose proof (Hag (p, t) Hop) as H. unfold pget in H.
+    destruct (alist_get (fn (p, t)) d) as [[k0 s0]|] eqn:E; simpl in *; rewrite <- H; simpl;
+      (split; [exact HR | trivial]).
+  - (* ListAll *)
+    simpl. split; [exact HR|]. fold (plist d).
+    split; [apply plist_NoDup; assumption | split; [exact Hnda|]].
+    intros k. rewrite (plist_In d a HR k), am_get_keys. reflexivity.
+  - (* ListPid *)
+    simpl. split; [exact HR|]. fold (plist d).
+    apply out_equiv_filter. simpl.
+    split; [apply plist_NoDup; assumption | split; [exact Hnda|]].
+    intros k. rewrite (plist_In d a HR k), am_get_keys. reflexivity.
+  - (* Delete *)
+    simpl in Hop. simpl. split; [|exact I].
+    change (pickle_filename p t) with (fn (p, t)).
+    assert (Hk0 : kok (p, t) = true) by exact Hop.
+    split; [apply NoDup_alist_del; exact Hnd|].
+    split.
+    { intros f k s' Hin. apply In_alist_del in Hin. apply (Hwf f k s' Hin). }
+    split; [apply NoDup_am_del; exact Hnda|].
+    split.
+    { intros k. rewrite am_get_del. destruct (key_eqb k (p, t)); [congruence | apply Hkok]. }
+    intros k Hk. unfold pget. rewrite (alist_get_del _ _ d Hnd), am_get_del.
+    destruct (key_eqb k (p, t)) eqn:E.
+    + apply key_eqb_eq in E. subst k. rewrite String.eqb_refl. reflexivity.
+    + destruct (String.eqb (fn k) (fn (p, t))) eqn:E2.
+      * apply String.eqb_eq in E2. apply fn_inj in E2; [| exact Hk | exact Hk0].
+        subst k. rewrite key_eqb_refl in E. discriminate.
+      * apply (Hag k Hk).
+  - (* DeletePid *)
+    split; [|exact I].
+    change (fst (pickle_step d (DeletePid p)))
+      with (fold_left delf (filter (fun k : key => String.eqb (fst k) p) (plist d)) d).
+    change (fst (spec_step a (DeletePid p))) with (am_del_pid p a).
+    set (ks := filter (fun k : key => String.eqb (fst k) p) (plist d)).
+    split; [apply fold_del_NoDup; exact Hnd|].
+    split.
+    { intros f k s' Hin. apply fold_del_In in Hin. apply (Hwf f k s' Hin). }
+    split; [apply NoDup_am_del_pid; exact Hnda|].
+    split.
+    { intros k. rewrite am_get_del_pid. destruct (String.eqb p (fst k)); [congruence | apply Hkok]. }
+    intros k Hk. unfold pget. rewrite (fold_del_get ks d (fn k) Hnd), am_get_del_pid.
+    destruct (String.eqb p (fst k)) eqn:Ep.
+    + destruct (existsb (fun k0 => String.eqb (fn k) (fn k0)) ks) eqn:Eex; [reflexivity|].
+      destruct (alist_get (fn k) d) as [[k0 s0]|] eqn:Eg; [|reflexivity].
+      exfalso. apply alist_get_In in Eg. destruct (Hwf _ _ _ Eg) as [Hf Hk'].
+      assert (k = k0) by (apply fn_inj; assumption). subst k0.
+      assert (Hex : existsb (fun k0 => String.eqb (fn k) (fn k0)) ks = true).
+      { apply existsb_exists. exists k. split; [| apply String.eqb_refl].
+        unfold ks. apply filter_In. split.
+        - apply (file_In_plist d (fn k) k s0 Eg).
+        - rewrite String.eqb_sym. exact Ep. }
+      congruence.
+    + destruct (existsb (fun k0 => String.eqb (fn k) (fn k0)) ks) eqn:Eex; [| apply (Hag k Hk)].
+      exfalso. apply existsb_exists in Eex. destruct Eex as [k1 [Hin1 Heq1]].
+      apply String.eqb_eq in Heq1. unfold ks in Hin1. apply filter_In in Hin1.
+      destruct Hin1 as [Hin1 Hp1]. apply plist_In_file in Hin1. destruct Hin1 as [f1 [s1 Hin1]].
+      destruct (Hwf _ _ _ Hin1) as [_ Hk1].
+      assert (k = k1) by (apply fn_inj; assumption). subst k1.
+      rewrite String.eqb_sym in Hp1. congruence.
+Qed.
+
+Lemma R_pickle_init : R_pickle [] [].
+Proof.
+  split; [constructor|]. split; [intros f k s []|]. split; [constructor|].
+  split; [intros k H; simpl in H; congruence|]. intros k _. reflexivity.
+Qed.
+
 Theorem pickle_refines_spec : forall h, forallb op_ok h = true ->
   Forall2 out_equiv (run_hist pickle_step [] h) (run_hist spec_step [] h).
-   (mem_refines_spec should not need op_ok at all — drop the hypothesis if so.)
+Proof.
+  intros h Hok.
+  apply (sim_lift pickle_step R_pickle op_ok pickle_step_sim h [] [] R_pickle_init Hok).
+Qed.
 
-(2) hence the two persisters are observationally equivalent:
+(* (2) hence the two persisters are observationally equivalent *)
 Theorem persisters_equivalent : forall h, forallb op_ok h = true ->
   Forall2 out_equiv (run_hist mem_step [] h) (run_hist pickle_step [] h).
+Proof.
+  intros h Hok.
+  apply (Forall2_trans_gen out_equiv out_equiv_trans _ (run_hist spec_step [] h)).
+  - apply mem_refines_spec.
+  - apply (Forall2_sym_gen out_equiv out_equiv_sym). apply pickle_refines_spec. exact Hok.
+Qed.
 
-(3) the abstract map is a snapshot store: characterise every reachable abstract state m = final_state spec_step [] h
-    (keys unique), and prove the corollaries the property names, on spec_step:
-Theorem spec_keys_unique : forall h, NoDup (map fst (final_state spec_step [] h)).
-Theorem spec_load_latest : forall m p t s, snd (spec_step (fst (spec_step m (Save p t s))) (Load p t)) = OSnap s.
-Theorem spec_save_other : forall m p t s p' t', (p', t') <> (p, t) ->
-  am_get (p', t') (fst (spec_step m (Save p t s))) = am_get (p', t') m.
-Theorem spec_delete_idempotent : forall m p t,
-  fst (spec_step (fst (spec_step m (Delete p t))) (Delete p t)) = fst (spec_step m (Delete p t)).
-Theorem spec_delete_local : forall m p t k, k <> (p, t) -> am_get k (fst (spec_step m (Delete p t))) = am_get k m.
-Theorem spec_delete_removes : forall m p t, am_get (p, t) (fst (spec_step m (Delete p t))) = None.
-Theorem spec_delete_pid_exact : forall m p k,
-  am_get k (fst (spec_step m (DeletePid p))) = if String.eqb p (fst k) then None else am_get k m.
-Theorem spec_list_exact : forall m k, NoDup (map fst m) ->
-  (In k (map fst m) <-> am_get k m <> None).
-*)
+Print Assumptions pickle_refines_spec.
+Print Assumptions persisters_equivalent.
